@@ -482,7 +482,9 @@ def spill_rule(chk, src):
     dirname = [unparse(st.targets[0]) for st in ast.walk(a2.node) if isinstance(st, ast.Assign) and isinstance(st.value, ast.Call) and unparse(st.value.func) == "os.path.join" and "id(self)" in unparse(st.value)]
     dn = ast.parse(names[0], mode="eval").body if len(names) == 1 else None
     used = {x.id for x in ast.walk(dn) if isinstance(x, ast.Name)} - {"os", "str"} if dn is not None else set()
-    chk.ob("spill-protocol", "one file per site inside that directory", len(names) == 1 and used == set(dirname[:1]) | {idx}, a2.where, names, f"os.path.join(dir_with_id, f'{{{idx}}}.npy')", line=a2.node.lineno,
+    fvals = [x.value for x in ast.walk(dn) if isinstance(x, ast.FormattedValue)] if dn is not None else []
+    injective = bool(fvals) and all(isinstance(v, ast.Name) and v.id == idx for v in fvals) or (dn is not None and any(isinstance(x, ast.Call) and unparse(x) == f"str({idx})" for x in ast.walk(dn)))
+    chk.ob("spill-protocol", "one file per site inside that directory", len(names) == 1 and used == set(dirname[:1]) | {idx} and injective, a2.where, names, f"os.path.join(dir_with_id, f'{{{idx}}}.npy')", line=a2.node.lineno,
            detail="the file name must be a function of the site index only: two sites sharing a file silently overwrite each other")
     saves = [c for c in ast.walk(a2.node) if isinstance(c, ast.Call) and unparse(c.func) == "np.save"]
     arr_defs = [unparse(st.value).replace(" ", "") for st in ast.walk(a2.node) if isinstance(st, ast.Assign) and unparse(st.targets[0]) == "array"]
